@@ -17,9 +17,8 @@ FINDING = 'C26-owner-read-demotes-owned'
 
 
 def known_args():
-    import vlib, os
-    # C26_FORCE_KNOWN=1: testing aid (mutant runs while the finding is not yet listed)
-    listed = any(f.get('id') == FINDING for f in vlib.known_findings()) or os.environ.get('C26_FORCE_KNOWN') == '1'
+    import vlib
+    listed = any(f.get('id') == FINDING for f in vlib.known_findings())
     return ['--known-owner-read'] if listed else []
 
 
